@@ -3,6 +3,7 @@ import Mp4ff.Expect.Facts
 import Mp4ff.Lemmas.C07
 import Mp4ff.Lemmas.CencCbcs
 import Mp4ff.Props.C06b
+import Mp4ff.Expect.Transcribed
 /-!
 # C07 — encrypted output is well-formed Common Encryption and matches a reference cipher
 Property theorems (proofs in `Mp4ff/Lemmas/C07.lean`, `CencRanges.lean`, `CencCipher.lean`).
@@ -67,5 +68,10 @@ theorem cryptCenc_clear_unchanged (E : Block → Block) (hE : ∀ b, (E b).lengt
 example : NalusOK [[0x65, 1, 2, 3], [0x06, 9]] := by
   refine ⟨?_, by decide⟩
   intro n hn; simp at hn; rcases hn with h | h <;> subst h <;> simp [IsBytes]
+
+/-- the Go functions the models of this property transcribe (committed table `spec/transcribed.json`, checked against
+    the current source by the extractor on every run) all still exist -/
+theorem model_sources_exist :
+    (["Aac.lean", "Bits.lean", "Boxes.lean", "Cenc.lean", "Nalu.lean", "Protect.lean"] : List String).all Mp4ff.Expect.presentFor = true := by decide +kernel
 
 end Mp4ff.Cenc.C07
